@@ -20,8 +20,10 @@ Theorems here are about the machinery that executes:
 * `conv_stripe_eq`, `dw_stripe_eq`, `pool_stripe_max_eq`, `pool_stripe_avg_eq` — the executor's convolution / depthwise /
   pooling accumulators on a stripe with stripe-local padding equal the reference accumulators on the whole tensor when the
   receptive-field equations of C10 hold;
-* `convValues_get`, `gatherList_get`, `conv_block_values`, `scatter_readback` — the executor's list/array formulation of a
-  convolution block: reads at `fmAddr`, per-element accumulators at the NHWC index, and what is scattered reads back.
+* `convValues_get`, `gatherList_get`, `conv_block_values`, `scatter_readback`, `convBranch_conv_ok`, `exec_conv_block`,
+  `exec_conv_block_correct` — `execBlock` on a convolution block: reads at `fmAddr`, per-element accumulators at the NHWC
+  index, what is scattered reads back; composed: after a successful `execBlock` every OFM element (not sharing bytes with
+  another) holds the activation of the clamped scaled `convAcc` over the memory contents.
 -/
 namespace VelaVerif.Props.C01
 open VelaVerif.Requant VelaVerif.TfliteRef VelaVerif.Lemmas.Sem VelaVerif.Lemmas.Pool VelaVerif.Lemmas.Exec VelaVerif.Tiling VelaVerif.NpuSem VelaVerif.Footprint VelaVerif.Decode
@@ -525,5 +527,119 @@ example (m' : Mem)
         subst h3
         rcases h1 with rfl | rfl <;> rcases h2 with rfl | rfl <;> first | (exact absurd rfl hne) | decide)
   exact this
+
+/-! ## `execBlock` on a convolution block, end to end -/
+
+
+/-- the convolution branch of `execBlock`, inverted: if it succeeds, the scale records were read, the weights fit the IFM
+    depth, and every output value is the activation of the clamped scaled accumulator at its NHWC index -/
+theorem convBranch_conv_ok (m : Mem) (ctx : Ctx) (b : BlockOp) (w : Weights) (rounding : Rounding) (ifm : Array Int) (H W : Nat)
+    (out : List Int) (hk : b.kind = .conv) (h : convBranch m ctx b (some w) rounding ifm H W = .ok out) :
+    ∃ recs : List ScaleRec,
+      (List.range b.ofm.depth).mapM (fun c => readScaleRec m b.scales ctx.ncores c) = .ok recs ∧
+      w.ic = b.ifm.depth ∧
+      ∀ oy ox oc, oy < b.ofm.height → ox < b.ofm.width → oc < b.ofm.depth →
+        ∃ v, out[(oy * b.ofm.width + ox) * b.ofm.depth + oc]? = some v ∧
+          applyActivation m ctx b (clamp (npuScale rounding
+            (NpuSem.convAcc H W b.ifm.depth (fun y x c => ifm.getD ((y * W + x) * b.ifm.depth + c) 0)
+              ((b.kernelH - 1) / b.dilationY + 1) ((b.kernelW - 1) / b.dilationX + 1) (fun ky kx ic => w.at oc ky kx ic)
+              b.strideY b.strideX b.dilationY b.dilationX b.padTop b.padLeft b.ifm.zeroPoint oy ox + (recs.toArray.getD oc default).bias)
+            (recs.toArray.getD oc default).scale (recs.toArray.getD oc default).shift + b.ofm.zeroPoint) b.actMin b.actMax) = .ok v := by
+  unfold convBranch at h
+  simp only [hk] at h
+  split at h
+  · simp [throw, throwThe, MonadExcept.throw, bind, Except.bind] at h
+  · split at h
+    · simp [throw, throwThe, MonadExcept.throw, bind, Except.bind] at h
+    · rename_i hfit hic
+      split at h
+      · simp [throw, throwThe, MonadExcept.throw, bind, Except.bind] at h
+      · cases hr : List.mapM (fun c => readScaleRec m b.scales ctx.ncores c) (List.range b.ofm.depth) with
+        | error e => rw [hr] at h; simp [bind, Except.bind] at h
+        | ok recs =>
+          rw [hr] at h
+          simp only [bind, Except.bind] at h
+          refine ⟨recs, rfl, ?_, ?_⟩
+          · by_cases hc : w.ic = b.ifm.depth
+            · exact hc
+            · exact absurd ⟨by decide, hc⟩ hic
+          · intro oy ox oc hy hx hc
+            have ⟨_, hg⟩ := mapM_except_get _ _ out h
+            have hv := convValues_get H W b.ifm.depth (fun y x c => ifm.getD ((y * W + x) * b.ifm.depth + c) 0)
+              ((b.kernelH - 1) / b.dilationY + 1) ((b.kernelW - 1) / b.dilationX + 1) (fun oc ky kx ic => w.at oc ky kx ic)
+              b.strideY b.strideX b.dilationY b.dilationX b.padTop b.padLeft b.ifm.zeroPoint b.ofm.zeroPoint rounding recs.toArray
+              b.ofm.height b.ofm.width b.ofm.depth oy ox oc hy hx hc
+            have hdw : (OpKind.conv == OpKind.depthwise) = false := by decide
+            rw [hdw] at hg
+            exact hg _ _ hv
+
+
+/-- `execBlock` on a convolution block without upscaling is: decode the rounding mode, gather the IFM box, run the
+    convolution branch, scatter the result (all prefix checks passed) -/
+theorem exec_conv_block (m m' : Mem) (ctx : Ctx) (b : BlockOp) (regs : RegFile) (w : Weights)
+    (hk : b.kind = .conv) (hu : b.upscale = 0) (h : execBlock m ctx b regs (some w) = .ok m') :
+    ∃ rounding l out, Rounding.ofBits (b.ofmPrecision / 16384 % 4) = some rounding ∧ gatherList m b.ifm = .ok l ∧
+      convBranch m ctx b (some w) rounding l.toArray b.ifm.height b.ifm.width = .ok out ∧
+      scatter m b.ofm out.toArray = .ok m' := by
+  unfold execBlock at h
+  simp only [hk, hu, show ¬ ((0 : Nat) > 2) by decide, ne_eq, not_true_eq_false, false_and, if_false, if_true, pure_bind] at h
+  split at h
+  · simp [throw, throwThe, MonadExcept.throw, bind, Except.bind] at h
+  · split at h
+    · simp [throw, throwThe, MonadExcept.throw, bind, Except.bind] at h
+    · split at h
+      · rename_i rounding hro
+        unfold gather at h
+        cases hg : gatherList m b.ifm with
+        | error e => rw [hg] at h; simp [bind, Except.bind] at h
+        | ok l =>
+          rw [hg] at h
+          simp only [bind, Except.bind, pure, Except.pure] at h
+          cases hc : convBranch m ctx b (some w) rounding l.toArray b.ifm.height b.ifm.width with
+          | error e => rw [hc] at h; simp at h
+          | ok out =>
+            rw [hc] at h
+            exact ⟨rounding, l, out, hro, rfl, hc, h⟩
+      · simp [throw, throwThe, MonadExcept.throw] at h
+
+
+/-- **A convolution block of the command stream, end to end.** If `execBlock` succeeds on a convolution block without IFM
+    upscaling, then for every OFM element `(oy, ox, oc)` whose bytes no other element of the OFM box shares, the resulting
+    memory holds at `fmAddr b.ofm oy ox oc` the activation of the clamped, scaled accumulator
+    `convAcc` over the memory contents at the addresses the IFM registers give (`memFm m b.ifm`), with the weights of output
+    channel `oc` and the scale record of that channel read from the region bytes. -/
+theorem exec_conv_block_correct (m m' : Mem) (ctx : Ctx) (b : BlockOp) (regs : RegFile) (w : Weights) (s : Nat)
+    (hk : b.kind = .conv) (hu : b.upscale = 0) (h : execBlock m ctx b regs (some w) = .ok m')
+    (hslot : regionSlot b.ofm.region = some s) (hsz : s < m.regions.size)
+    (oy ox oc : Nat) (hy : oy < b.ofm.height) (hx : ox < b.ofm.width) (hc : oc < b.ofm.depth)
+    (hdisj : ∀ y' x' c', y' < b.ofm.height → x' < b.ofm.width → c' < b.ofm.depth → (y', x', c') ≠ (oy, ox, oc) →
+      fmAddr b.ofm oy ox oc + b.ofm.elemBytes ≤ fmAddr b.ofm y' x' c' ∨ fmAddr b.ofm y' x' c' + b.ofm.elemBytes ≤ fmAddr b.ofm oy ox oc) :
+    ∃ (rounding : Rounding) (recs : List ScaleRec) (v : Int),
+      Rounding.ofBits (b.ofmPrecision / 16384 % 4) = some rounding ∧
+      (List.range b.ofm.depth).mapM (fun c => readScaleRec m b.scales ctx.ncores c) = .ok recs ∧
+      applyActivation m ctx b (clamp (npuScale rounding
+          (NpuSem.convAcc b.ifm.height b.ifm.width b.ifm.depth (memFm m b.ifm)
+            ((b.kernelH - 1) / b.dilationY + 1) ((b.kernelW - 1) / b.dilationX + 1) (fun ky kx ic => w.at oc ky kx ic)
+            b.strideY b.strideX b.dilationY b.dilationX b.padTop b.padLeft b.ifm.zeroPoint oy ox + (recs.toArray.getD oc default).bias)
+          (recs.toArray.getD oc default).scale (recs.toArray.getD oc default).shift + b.ofm.zeroPoint) b.actMin b.actMax) = .ok v ∧
+      m'.readElem b.ofm.region (fmAddr b.ofm oy ox oc) b.ofm.elemBytes b.ofm.signed = .ok (wrapElem b.ofm.elemBytes b.ofm.signed v) := by
+  obtain ⟨rounding, l, out, hro, hg, hcb, hsc⟩ := exec_conv_block m m' ctx b regs w hk hu h
+  obtain ⟨recs, hrecs, _, hvals⟩ := convBranch_conv_ok m ctx b w rounding l.toArray b.ifm.height b.ifm.width out hk hcb
+  obtain ⟨v, hv1, hv2⟩ := hvals oy ox oc hy hx hc
+  refine ⟨rounding, recs, v, hro, hrecs, ?_, ?_⟩
+  · rw [← convAcc_congr_inrange b.ifm.height b.ifm.width b.ifm.depth _ (memFm m b.ifm)
+      (fun y x c h1 h2 h3 => gather_getD m b.ifm l hg y x c h1 h2 h3)]
+    exact hv2
+  · have := scatter_readback m m' b.ofm out.toArray s hslot hsz hsc oy ox oc hy hx hc hdisj
+    rw [this]
+    simp [Array.getD_eq_getD_getElem?, hv1]
+
+
+
+/-- non-vacuity: the block of `Lemmas/Exec.lean` (1x2x1 int8 IFM [5, -6], 1x1 kernel of weight 3, bias 1, unit scale) executes
+    and leaves [16, -17] in the OFM bytes -/
+example : (match execBlock exMem ⟨1, 0⟩ exBlock default (some exW) with
+    | .ok m' => (m'.regions.getD 1 ByteArray.empty).data.toList.map (·.toNat) | .error _ => []) = [5, 250, 0, 0, 16, 239, 0, 0] := by
+  decide +kernel
 
 end VelaVerif.Props.C01
